@@ -209,7 +209,7 @@ def mac_shape(prog, run, fi):
     for n in ast.walk(fi.node):
         if isinstance(n, ast.For) and isinstance(n.target, ast.Name) and isinstance(n.iter, ast.Call) and astq.callee_name(prog, fi, n.iter) == "range" and n.iter.args:
             a = n.iter.args[-1] if len(n.iter.args) <= 2 else n.iter.args[1]
-            s = astq.src(a)
+            s = astq.src(astq.expr_at(fi, n, a, keep=(p0, p1)))
             for p in (p0, p1):
                 if s == f"{p}.shape[1]":
                     loops[n.target.id] = p
@@ -225,7 +225,7 @@ def mac_shape(prog, run, fi):
             run.ob("R-mac-shape", fi.qual, "entry indices", ok, f"`{astq.src(tgt)}`: row index runs over {loops[el[0].id]}, column index over {loops[el[1].id]}",
                    witness=f"{loops[el[0].id]},{loops[el[1].id]}", file=f, node=st)
             bad = []
-            for sub in ast.walk(st.value):
+            for sub in ast.walk(astq.expr_at(fi, st, st.value, keep=(p0, p1))):
                 if isinstance(sub, ast.Subscript) and isinstance(sub.value, ast.Name) and sub.value.id in (p0, p1):
                     e2 = astq.index_elts(sub)
                     if len(e2) == 2 and isinstance(e2[1], ast.Name) and e2[1].id in loops and loops[e2[1].id] != sub.value.id:
